@@ -47,6 +47,8 @@ pub(crate) struct SessionConnectionActorX<S: ZmtpStdStream> {
   write_half: Option<S::WriteHalf>,
   /// Temporary read buffer used only during the handshake loop.
   handshake_read_buf: BytesMut,
+  /// Messages decoded while still in the handshake loop; delivered first once operational.
+  handshake_ingress: std::collections::VecDeque<FrameBatch>,
 
   core_pipe_manager: CorePipeManagerX,
 
@@ -137,6 +139,7 @@ where
       read_half: Some(read_half),
       write_half: Some(write_half),
       handshake_read_buf: BytesMut::with_capacity(GREETING_LENGTH * 4),
+      handshake_ingress: std::collections::VecDeque::new(),
       core_pipe_manager: CorePipeManagerX::new(),
       command_mailbox_receiver,
       system_event_receiver,
@@ -286,6 +289,7 @@ where
     // ── OPERATIONAL LOOP ──────────────────────────────────────────────────────
     if self.current_phase == ConnectionPhaseX::Operational {
       let mut message_processor = ZmqMessageProcessor::new();
+      ingress_buffer.extend(self.handshake_ingress.drain(..));
 
       let mut read_half = self
         .read_half
@@ -918,7 +922,10 @@ where
           self.set_fatal_error(e).await;
           return;
         }
-        AppAction::DeliverMessage(_) => {}
+        AppAction::DeliverMessage(batch) => {
+          // Data that arrived in the same read as the last handshake bytes.
+          self.handshake_ingress.push_back(batch);
+        }
       }
     }
   }
